@@ -587,8 +587,8 @@ def field_consumption(prog, rep, cx):
     """every declared field of a definition class is read by the builder that consumes it"""
     rid = "C18.definition-fields-consumed"
     builders = {
-        "FlowDefinition": [("flow_helper.py", "make_empty_flows")],
-        "StockDefinition": [("stock_helper.py", "make_empty_stocks")],
+        "FlowDefinition": [("flow_helper.py", None)],
+        "StockDefinition": [("stock_helper.py", None)],
         "ParameterDefinition": [("data_reader.py", None)],
         "DimensionDefinition": [("dimensions.py", None), ("data_reader.py", None)],
         "MFADefinition": [("mfa_system.py", None)],
